@@ -161,6 +161,10 @@ def run(ctx):
             n = rng.randint(1, N)
             mask = None if n == N else gen.rmask(rng, N, n)[0]
             do(ctx, 'rot_corr', [be, gen.rpauli(rng, n, herm=True, nonzero=True), mask, gen.rplist(rng, N, L)], nontrivial=('long', be, L))
+    for L in gen.LONG2:
+        for be in backends:
+            N = rng.randint(1, 3)
+            do(ctx, 'rot_corr', [be, gen.rpauli(rng, N, herm=True, nonzero=True), None, gen.rplist(rng, N, L)], nontrivial=('long2', be, L))
     # SPARSE generators on wide registers, unmasked, either sign
     for N in gen.BIG:
         for be in backends:
